@@ -8,6 +8,7 @@ Inductive act :=
 | APass
 | AModify (marker : bytes)       (* request: add_header(b'X-Mk-'+m, m); bytes: append m; context: ctx['mk_'+m] = m *)
 | ADel (key : bytes)             (* request: del_header(key); context: del ctx[key] if present; bytes: unchanged *)
+| AFresh (r : request)           (* request hooks: return a NEW HttpParser object, namely r (a redirect/rewrite); other hooks: unchanged *)
 | ADrop                          (* return None *)
 | AReject (status : option N) (reason : option bytes) (body : option bytes)   (* raise HttpRequestRejected(...) *)
 | ARaise (e : exn)               (* raise another exception *)
@@ -23,15 +24,16 @@ Record ptable := mkTable {
 Definition count_calls (p : N) (hk : hook) (seen : log) : N :=
   N.of_nat (length (filter (fun e => match e with Call q _ _ => (q =? p) && is_call_of hk e | _ => false end) seen)).
 
-Fixpoint run_act {A} (modify : bytes -> A -> A) (del : bytes -> A -> A) (count : N) (a : act) (x : A) : outcome A :=
+Fixpoint run_act {A} (modify : bytes -> A -> A) (del : bytes -> A -> A) (fresh : request -> A -> A) (count : N) (a : act) (x : A) : outcome A :=
   match a with
   | APass => Pass x
   | AModify m => Pass (modify m x)
   | ADel k => Pass (del k x)
+  | AFresh r => Pass (fresh r x)
   | ADrop => Drop
   | AReject st rs bd => Reject (HttpRequestRejected_response st rs [] bd)
   | ARaise e => Raise e
-  | AAfter n a1 a2 => if count <? n then run_act modify del count a1 x else run_act modify del count a2 x
+  | AAfter n a1 a2 => if count <? n then run_act modify del fresh count a1 x else run_act modify del fresh count a2 x
   end.
 
 Definition req_modify (m : bytes) (r : request) : request :=
@@ -43,15 +45,15 @@ Definition ctx_del (k : bytes) (c : ctx) : ctx := dict_del k c.
 Definition plugin_of_table (t : ptable) : plugin :=
   let id := t_id t in
   mkPlugin id (t_name t)
-    (fun seen r => run_act req_modify req_del (count_calls id BUC seen) (t_buc t) r)
+    (fun seen r => run_act req_modify req_del (fun r' _ => r') (count_calls id BUC seen) (t_buc t) r)
     (fun seen _ _ => match t_dns t with
                      | DNone => Some (None, None) | DIp ip => Some (Some ip, None)
                      | DSrc s => Some (None, Some s) | DRaise => None end)
-    (fun seen r => run_act req_modify req_del (count_calls id HCR seen) (t_hcr t) r)
-    (fun seen b => run_act (fun m x => x ++ m) (fun _ x => x) (count_calls id HCD seen) (t_hcd t) b)
-    (fun seen b => run_act (fun m x => x ++ m) (fun _ x => x) (count_calls id HUC seen) (t_huc t) b)
-    (fun seen c => run_act ctx_modify ctx_del (count_calls id OAL seen) (t_oal t) c)
-    (fun seen => match run_act (fun _ x => x) (fun _ x => x) (count_calls id OUCC seen) (t_oucc t) tt with
+    (fun seen r => run_act req_modify req_del (fun r' _ => r') (count_calls id HCR seen) (t_hcr t) r)
+    (fun seen b => run_act (fun m x => x ++ m) (fun _ x => x) (fun _ x => x) (count_calls id HCD seen) (t_hcd t) b)
+    (fun seen b => run_act (fun m x => x ++ m) (fun _ x => x) (fun _ x => x) (count_calls id HUC seen) (t_huc t) b)
+    (fun seen c => run_act ctx_modify ctx_del (fun _ x => x) (count_calls id OAL seen) (t_oal t) c)
+    (fun seen => match run_act (fun _ x => x) (fun _ x => x) (fun _ x => x) (count_calls id OUCC seen) (t_oucc t) tt with
                  | Raise e => Some e | Reject _ => Some (HttpProtocolException 0) | _ => None end).
 
 Definition klass_of_table (t : ptable) : klass := mkKlass (t_id t) PROXY_BASE (plugin_of_table t).
